@@ -388,6 +388,12 @@ func (p *Parser) parseAmount() *ast.Amount {
 	}
 	numberStr := rawNumberStr
 
+	// The exponent is not part of the digits that the marks are judged by: in "1.5E3"
+	// one digit follows the point, not three characters.
+	exponent := ""
+	if i := strings.IndexAny(numberStr, "eE"); i >= 0 {
+		numberStr, exponent = numberStr[:i], numberStr[i:]
+	}
 	groupedWithBlanks := strings.Contains(numberStr, " ")
 	numberStr = strings.ReplaceAll(numberStr, " ", "")
 	if groupedWithBlanks && strings.Count(numberStr, ".")+strings.Count(numberStr, ",") == 1 {
@@ -398,6 +404,7 @@ func (p *Parser) parseAmount() *ast.Amount {
 		numberStr = normalizeNumber(numberStr)
 	}
 
+	numberStr += exponent
 	qty, err := decimal.NewFromString(numberStr)
 	if err != nil {
 		p.error("invalid number: %s", p.current.Value)
